@@ -561,6 +561,32 @@ func DependsOn(v ssa.Value, target func(ssa.Value) bool, throughCalls bool) bool
 				return rec(x.Call.Value, d+1)
 			}
 			return false
+		case *ssa.Alloc:
+			// local cell / struct literal: what was stored into it (or its parts)
+			var walk func(addr ssa.Value, dd int) bool
+			walk = func(addr ssa.Value, dd int) bool {
+				if dd > 3 {
+					return false
+				}
+				for _, r := range *addr.Referrers() {
+					switch y := r.(type) {
+					case *ssa.Store:
+						if y.Addr == addr && rec(y.Val, d+1) {
+							return true
+						}
+					case *ssa.FieldAddr:
+						if walk(y, dd+1) {
+							return true
+						}
+					case *ssa.IndexAddr:
+						if walk(y, dd+1) {
+							return true
+						}
+					}
+				}
+				return false
+			}
+			return walk(x, 0)
 		case ssa.Instruction:
 			for _, op := range x.Operands(nil) {
 				if *op != nil && rec(*op, d+1) {
